@@ -48,6 +48,7 @@ func init() {
 			"Create-namespace contexts: install / install --replace with --create-namespace, release namespace object absent | present, conflicts inside the namespace (a, w) and outside it (cluster-scoped cr); " +
 			"a refused install must not have sent POST /namespaces either. Chart-own-metadata charts: every slot document hard-codes app.kubernetes.io/managed-by=kustomize (variant 2: also foreign meta.helm.sh/release-* annotations); " +
 			"all contexts x the 4-slot chart x 7^2 placements of (a,w); oracle (b) demands this release's three values on the live objects. " +
+			"Is-upgrade-flag contexts: the install / install --replace contexts with Install.IsUpgrade=true on a real (non dry-run) run, charts a+s+w, cr, a+cr. " +
 			"Other-namespace slot: ConfigMap b0 with metadata.namespace: other (same kind and name as the base resource b0 of the release namespace), charts {b0@other, a+b0@other} x 7^2 placements of (a, b0@other) x all contexts. " +
 			"Carry-over family: release owns {b0 + slots}; every subset of its live objects is deleted out-of-band; then {upgrade changing the content | upgrade with the identical chart | rollback} x --force on/off x take-ownership on/off (upgrades); " +
 			"oracle (b): every manifest object carries the ownership metadata afterwards (re-created and PUT-replaced objects included). " +
@@ -75,6 +76,7 @@ func init() {
 			"create-namespace:created", "create-namespace:already-exists-tolerated",
 			"chart-own-metadata-1-overridden:install", "chart-own-metadata-1-overridden:replace", "chart-own-metadata-1-overridden:upgrade", "chart-own-metadata-1-overridden:rollback",
 			"chart-own-metadata-2-overridden:install", "chart-own-metadata-2-overridden:upgrade",
+			"refused:install-with-is-upgrade-flag", "refused:replace-with-is-upgrade-flag",
 			"refused:upgrade-same-name-other-namespace", "inject-create-met-unowned-not-deployed",
 			"refused:retry-after-failed-upgrade", "carry:recreated-stamped", "carry:force-replaced-stamped", "carry:rollback-recreated-stamped",
 			"inject:install", "inject:install-adopting", "inject:upgrade", "inject:rollback", "inject-refused-pre-check", "inject-create-409", "inject-abort-not-in-original", "inject-untouched-checked",
@@ -345,6 +347,8 @@ type ctxDef struct {
 	Under  func(mask int) hx.Op
 	// Own > 0: the slot documents carry chart-supplied ownership metadata (see ownMetaYAML).
 	Own int
+	// IsUpgradeFlag: the install runs with Install.IsUpgrade = true (not a dry run).
+	IsUpgradeFlag bool
 	// CreateNS: "" | "absent" | "exists" - install --create-namespace with the release namespace object absent / present.
 	CreateNS string
 	// SlotsAbsentAfterPrefix: the prefix ends with a failed attempt that must not have created any chart slot.
@@ -366,6 +370,8 @@ func opStep(o hx.Op) opspace.Step { return opspace.Step{Op: o} }
 type ctxOpt struct {
 	Own      int
 	CreateNS string
+	// IsUpgrade sets Install.IsUpgrade on a real (non dry-run) install; documented as ignored then.
+	IsUpgrade bool
 }
 
 const nsObjPath = "/api/v1/namespaces/" + hx.Namespace
@@ -379,8 +385,12 @@ func contextsWith(thorough bool, opt ctxOpt) []ctxDef {
 	}
 	var out []ctxDef
 	for _, cx := range all {
-		if opt.CreateNS != "" && cx.Kind != "install" && cx.Kind != "replace" {
+		if (opt.CreateNS != "" || opt.IsUpgrade) && cx.Kind != "install" && cx.Kind != "replace" {
 			continue
+		}
+		if opt.IsUpgrade {
+			cx.Name += "/is-upgrade-flag"
+			cx.IsUpgradeFlag = true
 		}
 		cx.Own, cx.CreateNS = opt.Own, opt.CreateNS
 		if opt.Own > 0 {
@@ -427,7 +437,7 @@ func contextsRaw(thorough bool, opt ctxOpt) []ctxDef {
 			}
 			install := func(replace bool) func(int) hx.Op {
 				return func(mask int) hx.Op {
-					return hx.Op{Kind: "install", Chart: chartC(mask, 1, 0, hook, "1"), Replace: replace, TakeOwnership: to, CreateNamespace: opt.CreateNS != ""}
+					return hx.Op{Kind: "install", Chart: chartC(mask, 1, 0, hook, "1"), Replace: replace, TakeOwnership: to, CreateNamespace: opt.CreateNS != "", IsUpgrade: opt.IsUpgrade}
 				}
 			}
 			upgrade := func(b int) func(int) hx.Op {
@@ -660,6 +670,9 @@ func eval(t *opspace.Transition) verdict {
 	preObjs, postObjs := t.Pre.NonRecordObjects(), t.Post.NonRecordObjects()
 	shape := op.Shape()
 	dry := op.DryRun || op.DryRunOption != "" || op.ClientOnly
+	if op.IsUpgrade && op.Kind == "install" {
+		shape += "[is-upgrade-flag]"
+	}
 	add := func(clause, key, what string, conflicts []string) {
 		v.Problems = append(v.Problems, problem{Clause: clause, Key: core.SanitizeKey(key), What: what, Conflicts: conflicts})
 	}
@@ -896,6 +909,9 @@ func pathStrings(path []opspace.Step) []string {
 		if s.Op.Release != "" && s.Op.Release != rel {
 			str = "[release " + s.Op.Release + "] " + str
 		}
+		if s.Op.IsUpgrade {
+			str += " [Install.IsUpgrade=true]"
+		}
 		if s.Op.Chart != nil && len(s.Op.Chart.Extra) > 0 {
 			str += fmt.Sprintf(" +raw documents (own ownership metadata / explicit namespace): %v", sortedKeys(s.Op.Chart.Extra))
 		}
@@ -1003,6 +1019,9 @@ func blocksOf(thorough bool) []block {
 			// charts whose documents hard-code ownership metadata of their own
 			{driver: "memory", ctxs: contextsWith(false, ctxOpt{Own: 1}), masks: []int{15}, kinds: 7, vary: []int{0, 2}},
 			{driver: "memory", ctxs: contextsWith(false, ctxOpt{Own: 2}), masks: []int{15}, kinds: 7, vary: []int{0, 2}},
+			// install / install --replace with Install.IsUpgrade set on a real run (the flag must stay without effect)
+			{driver: "memory", ctxs: contextsWith(false, ctxOpt{IsUpgrade: true}), masks: []int{7}, kinds: 7, vary: []int{0, 2}},
+			{driver: "memory", ctxs: contextsWith(false, ctxOpt{IsUpgrade: true}), masks: []int{cr, cr | 1}, kinds: 7, vary: []int{0, 3}},
 			// a document with metadata.namespace: other whose kind+name equal the base resource b0 of the release namespace
 			{driver: "memory", ctxs: contexts(false), masks: []int{16, 17}, kinds: 7, vary: []int{0, 4}},
 		}
@@ -1023,6 +1042,9 @@ func blocksOf(thorough bool) []block {
 		{driver: "memory", ctxs: contextsWith(true, ctxOpt{Own: 1}), masks: []int{15, 5}, kinds: 7, vary: []int{0, 2}},
 		{driver: "memory", ctxs: contextsWith(true, ctxOpt{Own: 2}), masks: []int{15, 5}, kinds: 7, vary: []int{0, 2}},
 		{driver: "secrets", ctxs: contextsWith(false, ctxOpt{Own: 1}), masks: []int{15}, kinds: 7, vary: []int{0, 2}},
+		{driver: "memory", ctxs: contextsWith(true, ctxOpt{IsUpgrade: true}), masks: []int{7}, kinds: 7, vary: []int{0, 1, 2}},
+		{driver: "memory", ctxs: contextsWith(true, ctxOpt{IsUpgrade: true}), masks: []int{cr, cr | 1}, kinds: 9, vary: []int{0, 3}},
+		{driver: "secrets", ctxs: contextsWith(false, ctxOpt{IsUpgrade: true}), masks: []int{7}, kinds: 7, vary: []int{0, 2}},
 		{driver: "memory", ctxs: contexts(true), masks: []int{16, 17}, kinds: 9, vary: []int{0, 4}},
 		{driver: "secrets", ctxs: contexts(false), masks: []int{16, 17}, kinds: 7, vary: []int{0, 4}},
 	}
@@ -1218,6 +1240,9 @@ func (x *explorer) scenario(drv string, cx ctxDef, mask int, pl placement) {
 		if mask&16 != 0 && v.Conflicts == 1 && pl[4] != plAbsent && pl[4] != plOwned && cx.Kind == "upgrade" {
 			// the only conflict is the other-namespace twin of a resource the deployed manifest has in the release namespace
 			c.Floor("refused:upgrade-same-name-other-namespace")
+		}
+		if cx.IsUpgradeFlag {
+			c.Floor("refused:" + cx.Kind + "-with-is-upgrade-flag")
 		}
 		if cx.CreateNS != "" {
 			c.Floor("refused:create-namespace(ns-" + cx.CreateNS + ")")
